@@ -34,7 +34,13 @@ CONST = """CONSTANTS
   Alpha = "%(alpha)s"
   Slim = %(slim)s
   Strict = %(strict)s
+  HoleRepair = %(hole)s
 """
+
+# Set to True (or run with VERIF_C20_HOLE_REPAIRED=1) once findings/C20_proposed_repair.patch (or an equivalent repair of
+# demoteUnexecutables) is in /repo: the design layer then models the repaired code and the strict run for that class is dropped.
+HOLE_REPAIRED = os.environ.get("VERIF_C20_HOLE_REPAIRED", "") == "1"
+
 
 ALL_INV = "I_Disjoint I_GapFree I_Afford I_Above I_Limits I_Union I_Nonce"
 M_CFG = "SPECIFICATION Spec\nINVARIANTS %s\nVIEW View\nCHECK_DEADLOCK FALSE\n"
@@ -47,7 +53,8 @@ CLAUSES = ("PendingQueueDisjoint", "PendingGapFreeFromStateNonce", "PendingAffor
 
 def consts(c, **kw):
     d = dict(accts=", ".join(str(i) for i in range(1, c["na"] + 1)), maxn=c.get("maxn", 2), AS=c["AS"], GS=c["GS"], AQ=c["AQ"],
-             GQ=c["GQ"], ops=0, gen="none", mode="sync", alpha="full", slim="FALSE", strict="FALSE")
+             GQ=c["GQ"], ops=0, gen="none", mode="sync", alpha="full", slim="FALSE", strict="FALSE",
+             hole="TRUE" if HOLE_REPAIRED else "FALSE")
     d.update(kw)
     return CONST % d
 
@@ -81,7 +88,7 @@ def design(ctx):
     quick = ctx.quick
     cex = []
     # (a) strict runs: the design layer itself leaves the property in the two known ways
-    for name, inv, depth in (("limits", "I_Limits", 3), ("gap", "I_GapFree", 4)):
+    for name, inv, depth in (("limits", "I_Limits", 3),) + ((() if HOLE_REPAIRED else (("gap", "I_GapFree", 4),))):
         m = ctx.tlc_must("TxPool", M_CFG % inv + consts(CFG_A, ops=depth, strict="TRUE"), name="M_strict_" + name, timeout=1500)
         got = [v for v in m.printed if isinstance(v, dict) and v.get("kind") == "CEX"]
         for v in got:
@@ -272,11 +279,12 @@ def run(ctx):
     cex, mviol = design(ctx)
     # stored witnesses and design-level counterexamples first; each counterexample must show on the real pool
     first = witnesses() + [h for _, h in cex]
+    unreproduced = []
     if first:
         _, res = judge(ctx, cfg_of_init(first[0][0]), first, "W", conformance=False)
         for clause, _ in cex:
             if not any(v[0] == clause for v in res.get("viol", [])):
-                raise vlib.Undecided("design-level counterexample for %s did not reproduce on the real pool: specification drift" % clause)
+                unreproduced.append(clause)
     plan = [(CFG_A, dict(g1_depth=3, g1_keep=0, sim_num=0, sim_depth=0, sim_keep=0)),
             (CFG_B, dict(g1_depth=0, g1_keep=0, sim_num=150 if quick else 1500, sim_depth=10, sim_keep=2000 if quick else 25000)),
             (CFG_C, dict(g1_depth=0, g1_keep=0, sim_num=100 if quick else 1000, sim_depth=12, sim_keep=1500 if quick else 20000))]
@@ -298,9 +306,13 @@ def run(ctx):
         stress(ctx)
     fired = ctx.cov.get("clauses_fired", {})
     idle = sorted(k for k in CLAUSES if not fired.get(k))
-    if idle:
+    if idle and not ctx.violations:
         raise vlib.Undecided("monitor clauses never fired: %s" % idle)
-    if mviol and not ctx.violations and not ctx.known_hits:
+    if ctx.violations:
+        return      # a verdict from the real code stands on its own
+    if unreproduced:
+        raise vlib.Undecided("design-level counterexample for %s did not reproduce on the real pool: specification drift" % sorted(set(unreproduced)))
+    if mviol and not ctx.known_hits:
         raise vlib.Undecided("design-level counterexample (%s) did not reproduce on the real code: specification drift" % mviol)
 
 
